@@ -94,6 +94,7 @@ Theorem prox_tree_nonexpansive : forall (e : @fexpr R) (sigma : R) (x1 x2 p1 p2 
   fprox e (SScal sigma) x1 = Ok p1 -> fprox e (SScal sigma) x2 = Ok p2 ->
   wnormsq (fweights e) (vsub p1 p2) <= wnormsq (fweights e) (vsub x1 x2).
 Proof. exact fprox_nonexpansive_scalar. Qed.
+Print Assumptions prox_tree_nonexpansive.
 
 (* ... and for per-point / per-component steps in the step-weighted metric *)
 Theorem prox_tree_firmly_nonexpansive_general_step : forall (e : @fexpr R) (s : @sig R) (x1 x2 p1 p2 : list R),
@@ -122,29 +123,35 @@ Theorem rule_translation_sound : forall n (f : list R -> option R) (m t x q : li
   length m = n -> length t = n -> length x = n ->
   is_proxs n f m (vsub x t) q -> is_proxs n (fun z => f (vsub z t)) m x (vadd t q).
 Proof. exact rule_translation. Qed.
+Print Assumptions rule_translation_sound.
 Theorem rule_left_scaling_sound : forall n (f : list R -> option R) (m : list R) (s : R) (x q : list R),
   0 < s -> length m = n -> length x = n ->
   is_proxs n f (map (fun a => a * / s) m) x q -> is_proxs n (fun z => escal s (f z)) m x q.
 Proof. exact rule_left_scaling. Qed.
+Print Assumptions rule_left_scaling_sound.
 Theorem rule_arg_scaling_sound : forall n (f : list R -> option R) (m : list R) (c : R) (x q : list R),
   c <> 0 -> length m = n -> length x = n ->
   is_proxs n f (map (fun a => a * / (c * c)) m) (vscal c x) q ->
   is_proxs n (fun z => f (vscal c z)) m x (vscal (1 / c) q).
 Proof. exact rule_arg_scaling. Qed.
+Print Assumptions rule_arg_scaling_sound.
 Theorem rule_quadratic_perturbation_sound : forall n (f : list R -> option R) (w : list R) (sigma a : R) (u : list R) (k : R) (x q : list R),
   0 < sigma -> 0 <= a -> allpos w -> length w = n -> length u = n -> length x = n ->
   is_proxs n f (metric w (repeat (sigma * / (2 * sigma * a + 1)) n))
            (vscal (/ (2 * sigma * a + 1)) (vsub x (vscal sigma u))) q ->
   is_proxs n (fun z => eadd (f z) (Some (a * wnormsq w z + wdot w z u + k))) (metric w (repeat sigma n)) x q.
 Proof. exact rule_quadratic_perturbation. Qed.
+Print Assumptions rule_quadratic_perturbation_sound.
 Theorem rule_separable_sum_sound : forall n1 n2 (f1 f2 : list R -> option R) (m1 m2 x1 x2 p1 p2 : list R),
   length m1 = n1 -> length x1 = n1 -> length m2 = n2 -> length x2 = n2 ->
   is_proxs n1 f1 m1 x1 p1 -> is_proxs n2 f2 m2 x2 p2 ->
   is_proxs (n1 + n2) (fun z => eadd (f1 (firstn n1 z)) (f2 (skipn n1 z))) (m1 ++ m2) (x1 ++ x2) (p1 ++ p2).
 Proof. exact rule_separable. Qed.
+Print Assumptions rule_separable_sum_sound.
 Theorem variational_form_implies_minimiser : forall n (f : list R -> option R) (m x p : list R),
   length m = n -> length x = n -> allpos m -> is_proxs n f m x p -> is_proxm n f m x p.
 Proof. exact is_proxs_proxm. Qed.
+Print Assumptions variational_form_implies_minimiser.
 Print Assumptions rule_quadratic_perturbation_sound.
 
 (* Closure of SOUND proximal factories under the model's own combinators (= the code's calculus rules), for
@@ -155,30 +162,38 @@ Print Assumptions rule_quadratic_perturbation_sound.
    (FunctionalDefaultConvexConjugate / proximal_convex_conj) at ANY position of an expression included. *)
 Theorem sound_every_wellformed_tree : forall e : @fexpr R, wf e -> sound (fdim e) (fweights e) (fval e) (fprox e).
 Proof. exact sound_tree. Qed.
+Print Assumptions sound_every_wellformed_tree.
 Theorem sound_closed_translation : forall n w f pf t, length w = n -> length t = n ->
   sound n w f pf -> sound n w (fun z => f (vsub z t)) (prox_translation pf t).
 Proof. exact sound_translation. Qed.
+Print Assumptions sound_closed_translation.
 Theorem sound_closed_left_scaling : forall n w f pf s, 0 < s -> length w = n ->
   sound n w f pf -> sound n w (fun z => escal s (f z)) (fun sg x => pf (sig_scale s sg) x).
 Proof. exact sound_left_scaling. Qed.
+Print Assumptions sound_closed_left_scaling.
 Theorem sound_closed_arg_scaling : forall n w f pf c, c <> 0 -> length w = n ->
   sound n w f pf -> sound n w (fun z => f (vscal c z)) (prox_arg_scaling pf c).
 Proof. exact sound_arg_scaling. Qed.
+Print Assumptions sound_closed_arg_scaling.
 Theorem sound_closed_quadratic_perturbation : forall n w f pf a u k, 0 <= a -> allpos w -> length w = n -> length u = n ->
   sound n w f pf ->
   sound n w (fun z => eadd (f z) (Some (a * wnormsq w z + wdot w z u + k))) (prox_quad_pert pf a (Some u)).
 Proof. exact sound_quadratic_perturbation. Qed.
+Print Assumptions sound_closed_quadratic_perturbation.
 Theorem sound_closed_convex_conj : forall n w f fs pf, allpos w -> length w = n ->
   is_conj n w f fs -> sound n w f pf -> sound n w fs (prox_convex_conj pf).
 Proof. exact sound_convex_conj. Qed.
+Print Assumptions sound_closed_convex_conj.
 Theorem sound_closed_separable_sum : forall n1 n2 w1 w2 f1 f2 p1 p2, length w1 = n1 -> length w2 = n2 ->
   sound n1 w1 f1 p1 -> sound n2 w2 f2 p2 ->
   sound (n1 + n2) (w1 ++ w2) (fun z => eadd (f1 (firstn n1 z)) (f2 (skipn n1 z))) (prox_combine n1 p1 p2).
 Proof. exact sound_combine. Qed.
+Print Assumptions sound_closed_separable_sum.
 Theorem sound_closed_composition : forall k n f pf A mu, rows_ok k n A -> 0 < mu ->
   (forall u, length u = k -> mvec A (mvec (transpose n A) u) = vscal mu u) ->
   sound k (repeat 1 k) f pf -> sound n (repeat 1 n) (fun z => f (mvec A z)) (prox_composition pf n A mu).
 Proof. exact sound_composition. Qed.
+Print Assumptions sound_closed_composition.
 Print Assumptions sound_closed_quadratic_perturbation.
 
 (* Moreau rule = proximal_convex_conj:  x - sigma * prox_{f, 1/sigma}(x / sigma)  is the proximal point of the
@@ -209,9 +224,11 @@ Print Assumptions prox_tree_default_convex_conj.
 Theorem norm_ball_conjugate_pair : forall n (w : list R), allpos w -> length w = n ->
   is_conj n w (leaf_val FL2 w) (leaf_val FBall2 w).
 Proof. exact l2_ball_conj. Qed.
+Print Assumptions norm_ball_conjugate_pair.
 Theorem weighted_cauchy_schwarz : forall n (w a b : list R), allpos w -> length w = n -> length a = n -> length b = n ->
   wdot w a b <= sqrt (wnormsq w a) * sqrt (wnormsq w b).
 Proof. exact cauchy_schwarz. Qed.
+Print Assumptions weighted_cauchy_schwarz.
 
 (* proximal_l2(space, lam, g): block soft threshold in the norm of the weighted space *)
 Theorem factory_l2 : forall lam n (g w : list R) (s : R) (x : list R), 0 < lam -> 0 < s ->
@@ -248,14 +265,17 @@ Theorem factory_l1 : forall lam n (g w sv x : list R), 0 < lam ->
   length g = n -> length w = n -> length sv = n -> length x = n -> allpos w -> allpos sv ->
   is_proxs n (F_l1 lam g w) (metric w sv) x (prox_l1 lam (Some g) sv x).
 Proof. exact l1_factory_prox. Qed.
+Print Assumptions factory_l1.
 Theorem factory_l2_squared : forall lam n (g w sv x : list R), 0 < lam ->
   length g = n -> length w = n -> length sv = n -> length x = n -> allpos w -> allpos sv ->
   is_proxs n (F_l2sq lam g w) (metric w sv) x (prox_l2sq lam (Some g) sv x).
 Proof. exact l2sq_factory_prox. Qed.
+Print Assumptions factory_l2_squared.
 Theorem factory_convex_conj_l2_squared : forall lam n (g w sv x : list R), 0 < lam ->
   length g = n -> length w = n -> length sv = n -> length x = n -> allpos w -> allpos sv ->
   is_proxs n (F_ccl2sq lam g w) (metric w sv) x (prox_cc_l2sq lam (Some g) sv x).
 Proof. exact ccl2sq_factory_prox. Qed.
+Print Assumptions factory_convex_conj_l2_squared.
 Theorem factory_convex_conj_l1 : forall lam n (g w : list R) (s : R) (x : list R), 0 < lam -> 0 < s ->
   length g = n -> length w = n -> length x = n -> allpos w ->
   is_proxs n (F_ccl1 lam g w) (metric w (repeat s n)) x (prox_cc_l1 lam (Some g) s x).
@@ -273,11 +293,13 @@ Print Assumptions proj_simplex_threshold.
 Theorem indicator_simplex_prox : forall n (d k : R) (w x : list R), 0 <= d -> 0 < k -> length x = n -> (1 <= n)%nat ->
   exists p, proj_simplex d x = Ok p /\ is_proxs n (leaf_val (FSimplex d) w) (repeat k n) x p.
 Proof. exact simplex_leaf_prox. Qed.
+Print Assumptions indicator_simplex_prox.
 (* proj_l1 / IndicatorLpUnitBall(1) and the L-infinity proximal x - proj_l1(x, sigma), unweighted space *)
 Theorem indicator_l1_ball_prox : forall n (k : R) (x : list R), 0 < k -> length x = n -> (1 <= n)%nat ->
   exists p, leaf_prox FBall1 (repeat 1 n) (SScal 1) x = Ok p /\
             is_proxs n (leaf_val FBall1 (repeat 1 n)) (repeat k n) x p.
 Proof. exact ball1_leaf_prox. Qed.
+Print Assumptions indicator_l1_ball_prox.
 Theorem linfty_prox : forall n (sigma : R) (x : list R), 0 < sigma -> length x = n -> (1 <= n)%nat ->
   exists p, leaf_prox FLInf (repeat 1 n) (SScal sigma) x = Ok p /\
             is_proxs n (leaf_val FLInf (repeat 1 n)) (repeat (/ sigma) n) x p.
@@ -312,6 +334,7 @@ Theorem kl_convex_conj_prox : forall lam n (g w x : list R) (s : R), 0 < lam -> 
   is_proxs n (sepsum (map (fun gi t => if Rltb t lam then Some (- lam * gi * ln (1 - t / lam)) else None) g) w)
            (metric w (repeat s n)) x (prox_cc_kl lam (Some g) s x).
 Proof. exact klcc_factory_prox. Qed.
+Print Assumptions kl_convex_conj_prox.
 Theorem kl_prox : forall n (g w x : list R) (s : R), 0 < s -> allpos g ->
   length g = n -> length w = n -> length x = n -> allpos w ->
   exists p, prox_convex_conj (fun s' y => needs_scalar s' (fun sg => Ok (prox_cc_kl 1 (Some g) sg y))) (SScal s) x = Ok p /\
@@ -332,12 +355,14 @@ Theorem linfty_prox_weighted_space_refuted :
     ~ ele (prox_obj (leaf_val FLInf w) (metric w (repeat sigma (length w))) x p)
           (prox_obj (leaf_val FLInf w) (metric w (repeat sigma (length w))) x z).
 Proof. exact linfty_weighted_refuted. Qed.
+Print Assumptions linfty_prox_weighted_space_refuted.
 Theorem indicator_l1_ball_weighted_space_refuted :
   exists (w x p z : list R) (sigma : R), allpos w /\ 0 < sigma /\ length x = length w /\ length z = length w /\
     leaf_prox FBall1 w (SScal sigma) x = Ok p /\
     ~ ele (prox_obj (leaf_val FBall1 w) (metric w (repeat sigma (length w))) x p)
           (prox_obj (leaf_val FBall1 w) (metric w (repeat sigma (length w))) x z).
 Proof. exact l1_ball_weighted_refuted. Qed.
+Print Assumptions indicator_l1_ball_weighted_space_refuted.
 Theorem indicator_simplex_nonuniform_weights_refuted :
   exists (w x p z : list R) (sigma d : R), allpos w /\ 0 < sigma /\ length x = length w /\ length z = length w /\
     leaf_prox (FSimplex d) w (SScal sigma) x = Ok p /\
